@@ -55,7 +55,9 @@ CharCps == {97, 65, 48, 32, 10, 955, 40, 41, 34, 59, 124, 92, 35, 39}
            \cup {0, 1, 31, 127, 133, 160, 173, 8203, 8232, 65279, 65534, 69821, 113824, 119155, 262141, 917505, 917631, 983040, 1048576, 1114109, 1114111, 128512, 233}
            \cup (IF Level = 1 THEN {} ELSE (0..300) \cup {k * 257 : k \in 2..250} \cup {65536 + k * 4099 : k \in 0..255} \cup {8233, 65533, 55295, 57344, 65535, 65536})
 CharObjs == {Chr(c) : c \in CharCps \ (55296..57343)}      \* Unicode scalars: no surrogates
-SymNames == {"abc", "a-b", "a b", "A", "aB", "1", "1.5", "-", "+", "1+", "a(b", ";x", "a'b", "a|b", "a\\b", ".", "..", "#a", "a#", "a:b", "&rest", "nil-p", "t1", "a,b", "`", "*x*", "1e5", "1/2", "a\nb", "two\n  lines"}
+SymNames == {"abc", "a-b", "a b", "A", "aB", "1", "1.5", "-", "+", "1+", "a(b", ";x", "a'b", "a|b", "a\\b", ".", "..", "#a", "a#", "a:b", "&rest", "nil-p", "t1", "a,b", "`", "*x*", "1e5", "1/2", "a\nb", "two\n  lines",
+             \* names that are number tokens in some spelling: upper-case exponent markers of every float format, signs, a leading or trailing point
+             "1E5", "2.5S3", "+7L10", "-1D-2", "1F0", ".5", "1.", "+.5e1", "-7/8", "1E", "e5"}
 Syms == {Sym(n) : n \in SymNames} \cup {Kw("kw"), Kw("a b"), Kw("K")} \cup (IF Level = 1 THEN {} ELSE {Kw(n) : n \in {"1", "a(b", "a|b", "x-y"}})
 Leaves == Ints \cup Ratios \cup Floats \cup Strings \cup CharObjs \cup Syms \cup {Nil, T}
 
